@@ -404,3 +404,8 @@ Definition opt_eqb (a b : option N) : bool :=
 
 Definition files_get (locs : list (loc * forest)) (l : loc) : forest :=
   match find (fun lf => fst lf =? l) locs with Some lf => snd lf | None => FNil end.
+
+(** Payload 0 is reserved for a value that is defined but whose text is empty (the string "",
+    or a value made only of `$t(..)` references to such strings): it is a [Leaf] like any other
+    defined value — `null` and an absent key are the only undefined forms. *)
+Definition empty_text : N := 0.
